@@ -508,6 +508,28 @@ DiscCmp ==
   /\ UNCHANGED <<mode, verdict, cfg, S, msgQ, netIn, netEnd, wrm, ph, inCtx, retd, ops, sts, nh, discW, g,
                  resumeQ, supp, secsAgo, blockedOn>>
 
+\* multi-thread family (C11): the broker's own log of what it saw on the wire (twr) and what it acknowledged (tack).
+\* An identifier is in use from its packet on the wire until the final acknowledgement of the exchange was injected.
+TWr ==
+  /\ Ok /\ Ev("twr") /\ Adv
+  /\ IF (Ln.t = "PUBLISH" /\ Ln.qos > 0) \/ Ln.t \in {"SUBSCRIBE", "UNSUBSCRIBE"}
+     THEN /\ Ln.id # 0 /\ Ln.id \notin g.ids
+          /\ (Ln.t = "SUBSCRIBE" => (Ln.sid # 0 /\ Ln.sid \notin g.sids))
+          /\ g' = [g EXCEPT !.ids = @ \cup {Ln.id}, !.sids = IF Ln.t = "SUBSCRIBE" THEN @ \cup {Ln.sid} ELSE @]
+     ELSE /\ Ln.t \in {"PUBLISH", "PUBREL", "PINGREQ", "DISCONNECT"}
+          /\ (Ln.t = "PUBREL" => Ln.id \in g.ids)
+          /\ g' = g
+  /\ UNCHANGED <<mode, verdict, cfg, S, msgQ, netIn, netEnd, wrm, ph, inCtx, retd, ops, sts, nh, discW, resumeQ, supp, secsAgo, blockedOn>>
+
+TAck ==
+  /\ Ok /\ Ev("tack") /\ Adv
+  /\ g' = IF Ln.t \in {"PUBACK", "PUBCOMP", "SUBACK", "UNSUBACK"} THEN [g EXCEPT !.ids = @ \ {Ln.id}] ELSE g
+  /\ UNCHANGED <<mode, verdict, cfg, S, msgQ, netIn, netEnd, wrm, ph, inCtx, retd, ops, sts, nh, discW, resumeQ, supp, secsAgo, blockedOn>>
+
+TDone ==
+  /\ Ok /\ Ev("tdone") /\ Adv /\ Ln.failed = 0 /\ Ln.written >= Ln.expected
+  /\ UNCHANGED <<mode, verdict, cfg, S, msgQ, netIn, netEnd, wrm, ph, inCtx, retd, ops, sts, nh, discW, g, resumeQ, supp, secsAgo, blockedOn>>
+
 \* informational lines that need no reference step
 Info ==
   /\ Ok /\ l <= N /\ Ln.e \in {"rd", "wrpart", "wrpending", "wrerr", "note"} /\ Adv
@@ -519,7 +541,7 @@ Normal ==
   \/ CtxBegin \/ TakeResumeDecide \/ TakeResume \/ TakeMsgSilent \/ TakeMsgSkipCancelled \/ TakeMsgWrite \/ TakeMsgWriteFails
   \/ TakePktSilent \/ TakePktWrite \/ TakePktWriteFails \/ TakePktBlocked \/ TakeOwed \/ TakeOwedFails
   \/ TakeNetEnd \/ TakeHandlesGone
-  \/ CtxEndPending \/ CtxEndReturn \/ Quiescent \/ MarkDisc \/ Reconnect \/ Info \/ First \/ Fuzz \/ DiscCmp
+  \/ CtxEndPending \/ CtxEndReturn \/ Quiescent \/ MarkDisc \/ Reconnect \/ Info \/ First \/ Fuzz \/ DiscCmp \/ TWr \/ TAck \/ TDone
 
 \* ------------------------------------------------------------------------------------------
 \* classification of a divergence: which property's clause does the unexplained line violate?
@@ -669,6 +691,8 @@ Classify ==
                                THEN V("C04", "panic", <<Ln.phase, Ln.case, Ln.msg>>)
                              ELSE IF Ln.o1 = "pending" /\ Ln.unread # 0 THEN V("C04", "stalled-with-unread-input", <<Ln.phase, Ln.case, Ln.unread>>)
                              ELSE V("C04", "no-return-after-transport-end", <<Ln.phase, Ln.case>>)
+    [] Ln.e = "twr"       -> V("C11", "packet-id", <<Ln.t, Ln.id, "threads">>)
+    [] Ln.e = "tdone"     -> V("C11", "operations-failed-or-missing", <<Ln.failed, Ln.written, Ln.expected>>)
     [] Ln.e = "abort"     -> V(<<"C03", "C04">>, "process-aborted", <<Ln.why, Ln.shard, Ln.completed>>)
     [] Ln.e = "disccmp"   -> V("C16", "outcome-depends-on-polling-discipline", <<Ln.variant, Ln.detail>>)
     [] Ln.e = "first"     -> IF Ln.res.r = "panic" THEN V("C04", "panic-in-connect", Ln.inj)
